@@ -166,6 +166,92 @@ Fixpoint jlookup (v : jv) (path : list ppart) : option string :=
   end.
 
 (* ---------------------------------------------------------------------------------------------------------------- *)
+(* the naming rule of the LogQL definition, stated by VALUE: a name is read as a sequence of characters -- UTF-8 as
+   RFC 3629 defines it: the code point is computed from the payload bits, and a sequence is a character only when it
+   is the shortest form of its code point, not a surrogate and not above U+10FFFF; any other byte is one (invalid)
+   character -- and every character outside [a-zA-Z0-9_] becomes ONE "_" *)
+Inductive uchar := UCp (cp : N) | UBad.
+Definition nb (c : ascii) : N := N_of_ascii c.
+Definition decode1 (c : ascii) (r : string) : uchar * nat :=
+  let n := nb c in
+  if (n <? 128)%N then (UCp n, 1%nat)
+  else if (192 <=? n)%N && (n <? 224)%N then
+    match r with
+    | String b1 _ =>
+      let cp := ((n - 192) * 64 + (nb b1 - 128))%N in
+      if cont b1 && (128 <=? cp)%N then (UCp cp, 2%nat) else (UBad, 1%nat)
+    | _ => (UBad, 1%nat)
+    end
+  else if (224 <=? n)%N && (n <? 240)%N then
+    match r with
+    | String b1 (String b2 _) =>
+      let cp := ((n - 224) * 4096 + (nb b1 - 128) * 64 + (nb b2 - 128))%N in
+      if cont b1 && cont b2 && (2048 <=? cp)%N && negb ((55296 <=? cp)%N && (cp <=? 57343)%N) then (UCp cp, 3%nat) else (UBad, 1%nat)
+    | _ => (UBad, 1%nat)
+    end
+  else if (240 <=? n)%N && (n <? 248)%N then
+    match r with
+    | String b1 (String b2 (String b3 _)) =>
+      let cp := ((n - 240) * 262144 + (nb b1 - 128) * 4096 + (nb b2 - 128) * 64 + (nb b3 - 128))%N in
+      if cont b1 && cont b2 && cont b3 && (65536 <=? cp)%N && (cp <=? 1114111)%N then (UCp cp, 4%nat) else (UBad, 1%nat)
+    | _ => (UBad, 1%nat)
+    end
+  else (UBad, 1%nat).
+Fixpoint chars_fuel (fuel : nat) (s : string) : list uchar :=
+  match fuel, s with
+  | S f, String c r => let (u, w) := decode1 c r in u :: chars_fuel f (drop_bytes (w - 1) r)
+  | _, _ => []
+  end.
+Definition utf8_chars (s : string) : list uchar := chars_fuel (String.length s) s.
+Definition cp_in_class (cp : N) : bool :=
+  ((97 <=? cp) && (cp <=? 122) || (65 <=? cp) && (cp <=? 90) || (48 <=? cp) && (cp <=? 57) || (cp =? 95))%N.
+Definition uchar_name (u : uchar) : ascii :=
+  match u with
+  | UCp cp => if cp_in_class cp then ascii_of_N cp else "_"%char
+  | UBad => "_"%char
+  end.
+Definition label_name (s : string) : string := string_of_list_ascii (map uchar_name (utf8_chars s)).
+
+(* the flattening of `| json`, declaratively: the scalar leaves of the document in document order, each under the
+   names of the members that lead to it; arrays have no leaves *)
+Fixpoint leaves (keys : list string) (v : jv) : list (list string * string) :=
+  match v with
+  | JStr s => [(keys, s)]
+  | JRaw s => [(keys, s)]
+  | JArr _ => []
+  | JObj kvs =>
+    (fix members (kvs : list (string * jv)) : list (list string * string) :=
+       match kvs with
+       | [] => []
+       | (k, x) :: r => (leaves (keys ++ [k]) x ++ members r)%list
+       end) kvs
+  end.
+Definition path_name (keys : list string) : string := fold_left join_key keys EmptyString.
+Definition json_all_ref (v : jv) : option lbls :=
+  match v with
+  | JObj _ => Some (fold_left (fun m kv => lset m (label_name (path_name (fst kv))) (snd kv)) (leaves [] v) [])
+  | _ => None
+  end.
+
+(* ---------------------------------------------------------------------------------------------------------------- *)
+(* the logfmt stage (planner_parser_logfmt.go HandleLogfmt) over the (key, value) pairs the decoder kr/logfmt hands to it,
+   in line order: without parameters every pair is assigned under the sanitised key; with parameters `label="key"`
+   (ParserPlanner.Process: logfmtFields[first part of the path, when it is a key] = label, one Go map: a later parameter
+   with the same key replaces the earlier one) only the named keys are assigned, under their labels *)
+Definition logfmt_all (pairs : list (string * string)) : lbls :=
+  fold_left (fun m kv => lset m (sanitize (fst kv)) (snd kv)) pairs [].
+Definition field_of (params : list ahead) (key : string) : string :=
+  fold_left (fun l a => match snd a with PKey k :: _ => if String.eqb k key then fst a else l | _ => l end) params EmptyString.
+Definition logfmt_fields (params : list ahead) (pairs : list (string * string)) : lbls :=
+  fold_left (fun m kv => let l := field_of params (fst kv) in if String.eqb l EmptyString then m else lset m l (snd kv)) pairs [].
+(* the definition: names by value *)
+Definition logfmt_all_ref (pairs : list (string * string)) : lbls :=
+  fold_left (fun m kv => lset m (label_name (fst kv)) (snd kv)) pairs [].
+(* per parameter: the value of the LAST pair whose key is the parameter's *)
+Definition logfmt_lookup (pairs : list (string * string)) (key : string) : option string :=
+  fold_left (fun f kv => if String.eqb (fst kv) key then Some (snd kv) else f) pairs None.
+
+(* ---------------------------------------------------------------------------------------------------------------- *)
 (* the decode oracle of a json stage, built from the tree oracle: what model/InternalEngine.v calls `parse id line`   *)
 Inductive jspec := JsonAll | JsonParams (params : list ahead).
 Definition json_decode (sp : jspec) (tree : option jv) : option lbls :=
@@ -179,8 +265,10 @@ Record jcase := { j_id : Z; j_spec : jspec; j_tree : option jv; j_obs : lbls }.
 Definition j_mismatch (c : jcase) : bool :=
   negb (lbls_eqb (match json_decode (j_spec c) (j_tree c) with Some m => m | None => [] end) (j_obs c)).
 Definition json_mismatches (cs : list jcase) : list Z := map j_id (filter j_mismatch cs).
-(* specification side: with distinct parameter names every parameter label holds what jlookup finds (and a label that
-   is no parameter is not assigned): evaluated on the OBSERVED labels *)
+(* specification side, evaluated on the OBSERVED labels.  With parameters (distinct names): every parameter label holds what
+   jlookup finds and a label that is no parameter is not assigned.  Without: the observed map IS the declarative flattening
+   json_all_ref -- every scalar leaf under the name the definition by value gives it (one "_" per character), nothing else;
+   nothing when the decoder or the stage refuses the line *)
 Fixpoint str_all (p : ascii -> bool) (s : string) : bool :=
   match s with EmptyString => true | String c r => p c && str_all p r end.
 Definition j_spec_violation (c : jcase) : bool :=
@@ -191,10 +279,46 @@ Definition j_spec_violation (c : jcase) : bool :=
                             | None => negb (mem_str (fst a) (map fst (j_obs c)))
                             end) ps
           && forallb (fun kv => mem_str (fst kv) (map fst ps)) (j_obs c))
-  | JsonAll, _ => negb (forallb (fun kv => str_all label_char (fst kv)) (j_obs c))      (* every label name is sanitised *)
+  | JsonAll, Some v => negb (lbls_eqb (match json_all_ref v with Some m => m | None => [] end) (j_obs c))
+  | JsonAll, None => negb (lbls_eqb [] (j_obs c))
   | _, _ => false
   end.
 Fixpoint nodup_str (l : list string) : bool :=
   match l with [] => true | x :: r => negb (mem_str x r) && nodup_str r end.
 Definition json_spec_violations (cs : list jcase) : list Z :=
   map j_id (filter (fun c => match j_spec c with JsonParams ps => nodup_str (map fst ps) | JsonAll => true end && j_spec_violation c) cs).
+
+(* logfmt rows: the pairs of the decoder oracle (None = it refuses the line), the parameters, the labels the real stage assigned *)
+Record lcase := { l_id : Z; l_params : list ahead; l_pairs : option (list (string * string)); l_obs : lbls }.
+Definition logfmt_decode (params : list ahead) (pairs : option (list (string * string))) : lbls :=
+  match pairs with
+  | None => []
+  | Some ps => match params with [] => logfmt_all ps | _ => logfmt_fields params ps end
+  end.
+Definition logfmt_mismatches (cs : list lcase) : list Z :=
+  map l_id (filter (fun c => negb (lbls_eqb (logfmt_decode (l_params c) (l_pairs c)) (l_obs c))) cs).
+(* specification: without parameters the observed map is logfmt_all_ref (names by value); with parameters whose names are
+   distinct, whose paths are one key each and whose keys are distinct: every label holds the value of the last pair of its
+   key, and nothing else is assigned *)
+Definition single_key (a : ahead) : option string := match snd a with [PKey k] => Some k | _ => None end.
+Definition l_spec_violation (c : lcase) : bool :=
+  match l_pairs c with
+  | None => negb (lbls_eqb [] (l_obs c))
+  | Some pairs =>
+    match l_params c with
+    | [] => negb (lbls_eqb (logfmt_all_ref pairs) (l_obs c))
+    | ps =>
+      if forallb (fun a => match single_key a with Some _ => true | None => false end) ps
+         && nodup_str (map fst ps) && nodup_str (map (fun a => match single_key a with Some k => k | None => EmptyString end) ps)
+      then negb (forallb (fun a => match single_key a with
+                                   | Some k => match logfmt_lookup pairs k with
+                                               | Some s => String.eqb (lget (l_obs c) (fst a)) s && mem_str (fst a) (map fst (l_obs c))
+                                               | None => negb (mem_str (fst a) (map fst (l_obs c)))
+                                               end
+                                   | None => true
+                                   end) ps
+                 && forallb (fun kv => mem_str (fst kv) (map fst ps)) (l_obs c))
+      else false
+    end
+  end.
+Definition logfmt_spec_violations (cs : list lcase) : list Z := map l_id (filter l_spec_violation cs).
